@@ -228,13 +228,14 @@ CHECKS = {
    text="Concurrent.tla models the dictionary as a value written only by the loader's mutation points and frozen at publication, and an analysis as Begin . Read* . End on a tokenizer owned by "
         "its thread; TLC explores EVERY interleaving of 3 threads x 2 analyses x 2 dictionary reads: EveryResultSequential and DictImmutable hold for the per-thread-tokenizer design and for the "
         "exclusive-borrow design of the Python Tokenizer, and are violated by three deliberately broken designs (write after publication, unguarded shared tokenizer, two critical sections) - "
-        "the negative controls run on every check. The model is bound to the code by recorded concurrent executions: 8-32 threads, each with its own StatefulTokenizer over one "
+        "the negative controls run on every check. Apalache discharges an inductive invariant of the per-thread design (base, step, IndInv => both properties) for 4 threads and unbounded "
+        "reads per analysis / analyses per thread, with its own negative control. The model is bound to the code by recorded concurrent executions: 8-32 threads, each with its own StatefulTokenizer over one "
         "Arc<JapaneseDictionary> (3 configurations with every plugin type and user dictionaries), and Python threads with own Tokenizers, one shared pre-tokenizer and one shared Tokenizer (GIL "
         "released during analysis); the hooks' dict_write/frozen events must be ordered as the model's LoadWrite/Freeze, every outcome must equal the single-threaded oracle recorded before and "
         "after the threads, and the dictionary fingerprint must not change.",
    note="The real code is explored only under the schedules the OS produced in these runs (barrier start, 16 cores, > 1M analyses per quick run); exhaustive interleaving coverage exists for the model "
         "only. A write path not marked by hook H4 that changes neither results nor accessor values is invisible. An analysis that never returns is reported by a watchdog (hang event, no action).",
-   technique="TLA+ spec Concurrent + TLC over all interleavings (with negative-control variants); I->S trace validation of recorded multi-threaded Rust and Python executions (Trace_Concurrent)",
+   technique="TLA+ spec Concurrent + TLC over all interleavings (with negative-control variants) + Apalache inductive invariant (unbounded reads/analyses, 4 threads); I->S trace validation of recorded multi-threaded Rust and Python executions (Trace_Concurrent)",
    design="4 C18"),
 }
 
